@@ -1000,9 +1000,13 @@ def rule_checked_name_is_looked_up(em, rep, rid):
 
 
 def context_literal_keys(em):
-    f = em.repo.lookup_method(em.YP, '_set_default_eval_context')
-    cands = [f] if f else []
-    cands.append(_method(em, '__init__'))
+    # by role: the methods of the engine class that bind self.eval_context (the set-up helper first, the constructor last)
+    cands = [m for m in em.YP.methods.values() if m.name not in ('__init__', 'clear') and
+             any(isinstance(n, ast.Assign) and any(is_self_attr(t, 'eval_context') for t in n.targets) for n in own_nodes(m.node))]
+    init = _method(em, '__init__')
+    called = {c for _, cs in em.cg.calls.get(init, ()) for c in cs}
+    cands = [m for m in cands if m in called] + [m for m in cands if m not in called]
+    cands.append(init)
     for c in cands:
         for n in own_nodes_ordered(c.node):
             if isinstance(n, ast.Assign) and any(is_self_attr(t, 'eval_context') for t in n.targets) and isinstance(n.value, ast.Dict):
